@@ -130,16 +130,18 @@ func (p MembershipProof) DigestVerify(digest hashing.Digest, snapshot *Snapshot)
 		return false
 	}
 
-	hyperCorrect := p.HyperProof.Verify(digest, snapshot.HyperDigest)
-
-	if p.Exists {
-		if p.ActualVersion <= p.QueryVersion {
-			historyCorrect := p.HistoryProof.Verify(digest, snapshot.HistoryDigest)
-			return hyperCorrect && historyCorrect
-		}
+	// Only a claim of existence at a version not later than the queried one
+	// can be verified: the hyper proof binds (digest prefix -> version) and the
+	// history proof binds (version -> digest); both are required. The hyper
+	// tree has no verifiable proof of absence.
+	if !p.Exists || p.ActualVersion > p.QueryVersion {
+		return false
 	}
 
-	return hyperCorrect
+	hyperCorrect := p.HyperProof.Verify(digest, snapshot.HyperDigest)
+	historyCorrect := p.HistoryProof.Verify(digest, snapshot.HistoryDigest)
+
+	return hyperCorrect && historyCorrect
 }
 
 // Verify verifies a proof and answer from QueryMembership. Returns true if the
